@@ -1,0 +1,56 @@
+//go:build verif
+
+package core
+
+// Contracts for executability propagation (property C18). Comment-only file:
+// compiled only under the "verif" build tag, contains no code. The "//@"
+// lines are read by /verif/govc.
+//
+// propagateExecutabilityRecursive is the one place that rewrites entries that
+// already exist (the deep copy PropagateExecutability makes of the target);
+// its contract is one level deep: what happens at the node it is given is
+// stated exactly, what happens below is the contract of the recursive call
+// on the three children of one name.
+
+// a is a file with the same content digest as the (file) entry t
+//@ pred sameContentFile(a, t) = a != nil && a.Kind == EntryKind_File && sameBytes(a.Digest, t.Digest)
+// the preserving side's file is unchanged since the last synchronization
+//@ pred sourceUnmodified(a, s) = s != nil && a != nil && s.Kind == EntryKind_File && a.Kind == EntryKind_File && sameBytes(s.Digest, a.Digest)
+
+// The only memory written is the Executable flag of entries, and only of
+// entries of kind file. Nothing is written when there is nothing to
+// propagate from (no ancestor and no source) or to (no target), when the
+// target is neither a file nor a directory, or when the target is a directory
+// and neither source nor ancestor has contents. For a file target exactly one
+// flag can change, the target's own, and its new value is
+//   rule 1  the source's flag, if the source is a file with the target's content;
+//   rule 2  else the ancestor's flag, if the ancestor is a file with the target's content;
+//   rule 3  else the source's flag, if source and ancestor are files with the same content;
+//   else    the old flag.
+// For a directory target the recursion visits, for names of the target, the
+// three children of that name (nil where a side has no such child).
+//@ func propagateExecutabilityRecursive
+//@   mutates
+//@   modifies Entry.Executable
+//@   ensures[filesonly] forall x *Entry :: x.Kind != EntryKind_File ==> x.Executable == old(x.Executable)
+//@   ensures[nothing] (ancestor == nil && source == nil) || target == nil ==> forall x *Entry :: x.Executable == old(x.Executable)
+//@   ensures[nothing] target != nil && target.Kind != EntryKind_File && target.Kind != EntryKind_Directory ==> forall x *Entry :: x.Executable == old(x.Executable)
+//@   ensures[nothing] target != nil && target.Kind == EntryKind_Directory && len(source.GetContents()) == 0 && len(ancestor.GetContents()) == 0 ==> forall x *Entry :: x.Executable == old(x.Executable)
+//@   ensures[onlytarget] target != nil && target.Kind == EntryKind_File ==> forall x *Entry :: x != target ==> x.Executable == old(x.Executable)
+//@   ensures[rule1] target != nil && target.Kind == EntryKind_File && sameContentFile(source, target) ==> target.Executable == old(source.Executable)
+//@   ensures[rule2] target != nil && target.Kind == EntryKind_File && !sameContentFile(source, target) && sameContentFile(ancestor, target) ==> target.Executable == old(ancestor.Executable)
+//@   ensures[rule3] target != nil && target.Kind == EntryKind_File && !sameContentFile(source, target) && !sameContentFile(ancestor, target) && sourceUnmodified(ancestor, source) ==> target.Executable == old(source.Executable)
+//@   ensures[keep] target != nil && target.Kind == EntryKind_File && !sameContentFile(source, target) && !sameContentFile(ancestor, target) && !sourceUnmodified(ancestor, source) ==> target.Executable == old(target.Executable)
+//@   at call propagateExecutabilityRecursive assert[children] target != nil && target.Kind == EntryKind_Directory && hask(target.Contents, name) && arg2 == target.Contents[name]
+//@   at call propagateExecutabilityRecursive assert[children] arg0 == ((ancestor != nil && hask(ancestor.Contents, name)) ? ancestor.Contents[name] : nil)
+//@   at call propagateExecutabilityRecursive assert[children] arg1 == ((source != nil && hask(source.Contents, name)) ? source.Contents[name] : nil)
+//@   loop 1 invariant[filesonly] forall x *Entry :: x.Kind != EntryKind_File ==> x.Executable == old(x.Executable)
+
+// PropagateExecutability works on a copy: the tree handed to the recursive
+// rewriting is the deep copy of the target made by this call (nil for a nil
+// target), the ancestor and source are passed through, and that copy is what
+// is returned - never the target itself.
+//@ func PropagateExecutability
+//@   ensures[copy] (target == nil ==> result == nil) && (target != nil ==> result != nil && fresh(result) && result != target && result.Kind == target.Kind)
+//@   at call (*Entry).Copy assert[copy] arg0 == target && arg1 == EntryCopyBehaviorDeep
+//@   at call propagateExecutabilityRecursive assert[copy] arg0 == ancestor && arg1 == source && arg2 == result && (arg2 == nil || fresh(arg2))
